@@ -64,8 +64,14 @@ PROVED = {
          "master is open delivered nothing; buffering never touches the destination; flush()/into_inner() close every master and empty the buffer; byte level (Proofs/AuditWriter.v): C10_flush_bytes / C10_into_inner_bytes — a successful "
          "flush appends exactly the working buffer with every open known-size master's id and size field spliced in at its start (closed_buf); "
          "C10_write_delivers / C10_raw_delivers — a successful call with no known-size master open appends exactly what was buffered; C10_raw_held; "
-         "C10_private_flush_bytes / C10_flush_failure — on an I/O error the buffer is emptied and the undelivered rest is lost (as in the code: drain(..)), "
-         "on the size error nothing changed. "
+         "C10_private_flush_bytes / C10_flush_failure — on an I/O error what the destination took is drained and the undelivered rest STAYS buffered "
+         "(after the repair of D28; before it the rest was lost), on the size error nothing changed. Failing destinations (Proofs/WriterIO.v): "
+         "C10_private_flush_nothing_lost — delivered ++ buffered is the same before and after every flush attempt; C10_io_error_loses_nothing — for every "
+         "specification, call sequence and destination script (errors, Ok(0), short writes, Interrupted) the run differs from the run against an accepting "
+         "destination only in that some Ok verdicts become I/O errors and some delivered bytes are still buffered: same open masters (known-size start "
+         "offsets shifted by the retained bytes: C10_io_open_offset_counterexample), delivered ++ buffered equal, never more delivered; C10_retry_delivers / "
+         "C10_empty_buffer_same_dest — once a call succeeds with no known-size master open (e.g. a retried flush) the destination holds exactly what the "
+         "accepting destination holds. "
          "Snapshots (Proofs/Snapshots.v): after the calls that write a conforming document up to any point with only unknown-size masters open, the "
          "destination holds exactly the encoding of everything written so far (C10_snapshot_bytes_partial) and the strict reader parses it to exactly the "
          "tags written so far followed by the Ends of the open masters, innermost first (C10_snapshot_parses_partial / _tags_partial); with a known-size "
